@@ -9,6 +9,7 @@ import (
 	"fmt"
 	"io"
 	"os"
+	"reflect"
 	"testing"
 
 	sms "github.com/hujm2023/go-sms-protocol"
@@ -247,6 +248,59 @@ func run(c Case) *vk.Violation {
 		case "ucs2":
 			s := cmpp.Utf8ToUcs2Pooled(string(vk.UnHex(op.Text)))
 			keep(&live{what: "Utf8ToUcs2Pooled", step: step, str: s, isStr: true, snapB: []byte(s)})
+		case "accessor":
+			// what the accessors of a decoded PDU's optional parameters hand out belongs to the caller as well
+			var pdus []*live
+			for _, l := range lives {
+				if l.pdu != nil {
+					pdus = append(pdus, l)
+				}
+			}
+			if len(pdus) == 0 {
+				continue
+			}
+			l := pdus[op.Idx%len(pdus)]
+			rv := reflect.ValueOf(l.pdu).Elem()
+			for _, name := range []string{"Options", "TLVs"} {
+				f := rv.FieldByName(name)
+				if !f.IsValid() || f.Len() == 0 {
+					continue
+				}
+				it := f.MapRange()
+				for it.Next() {
+					m := it.Value().MethodByName("Bytes")
+					if !m.IsValid() {
+						continue
+					}
+					out := m.Call(nil)[0].Bytes()
+					keep(&live{what: "accessor:" + name + ".Bytes", step: step, b: out, snapB: append([]byte{}, out...)})
+				}
+			}
+		case "codec":
+			// the content codecs used directly on the caller's (reused) buffer
+			in := append(inbuf[:0], vk.UnHex(op.Text)...)
+			var cd dc.Codec
+			switch op.Coding % 6 {
+			case 0:
+				cd = dc.Ascii(in)
+			case 1:
+				cd = dc.Latin1(in)
+			case 2:
+				cd = dc.UCS2(in)
+			case 3:
+				cd = dc.GB18030(in)
+			case 4:
+				cd = dc.GSM7Unpacked(in)
+			default:
+				cd = dc.GSM7Packed(in)
+			}
+			if out, err := cd.Encode(); err == nil && len(out) > 0 {
+				keep(&live{what: "codec.Encode:" + string(cd.Name()), step: step, b: out, snapB: append([]byte{}, out...)})
+				if dec, err := cd.Decode(); err == nil && len(dec) > 0 {
+					keep(&live{what: "codec.Decode:" + string(cd.Name()), step: step, b: dec, snapB: append([]byte{}, dec...)})
+				}
+			}
+			scribble(inbuf[:cap(inbuf)], byte(step))
 		case "scribble":
 			// the caller owns a returned output and may overwrite it: nothing else may change
 			var outs []*live
@@ -296,7 +350,7 @@ var texts = []string{"hello", "1234567@abcdefgh", "中文短信内容测试", "[
 	string(bytes.Repeat([]byte("中文"), 80)), string(bytes.Repeat([]byte("[a"), 100))}
 
 var opGen = rapid.Custom(func(t *rapid.T) Op {
-	k := rapid.SampledFrom([]string{"encode", "encode", "encodebad", "decode", "decode", "decode", "framedecode", "string", "split", "batch", "batch", "rebuild", "ucs2", "scribble", "scribble"}).Draw(t, "k")
+	k := rapid.SampledFrom([]string{"encode", "encode", "encodebad", "decode", "decode", "decode", "framedecode", "string", "split", "batch", "batch", "rebuild", "ucs2", "scribble", "scribble", "accessor", "codec"}).Draw(t, "k")
 	op := Op{K: k, Idx: rapid.IntRange(0, 47).Draw(t, "idx")}
 	switch k {
 	case "encodebad":
@@ -311,7 +365,7 @@ var opGen = rapid.Custom(func(t *rapid.T) Op {
 		}
 		j := ref.ToJ(b.Spec, gen.DrawVals(t, b, gen.Opts{}))
 		op.Vals = &j
-	case "split", "batch", "ucs2":
+	case "split", "batch", "ucs2", "codec":
 		op.Text = vk.Hex([]byte(rapid.SampledFrom(texts).Draw(t, "text")))
 		op.Proto = rapid.SampledFrom([]string{"cmpp", "smpp"}).Draw(t, "proto")
 		if op.Proto == "cmpp" {
